@@ -420,6 +420,113 @@ func monC02(c *drv.Ctx) {
 		cs.Count(true, l, mode)
 		cs.C.Obs("long-string cases", 1)
 	})
+
+	// (5) a connection's life: many values one after the other on one stream-backed reader, the application
+	// releasing the reader after some of them (with read-ahead left over), some values far larger than the buffer
+	c.Stage("values-and-releases", c.Pick(1500, 30000), false, func(cs *drv.Case) {
+		r := cs.R
+		n := 4 + r.Intn(12)
+		var vals []ref.Value
+		var encs [][]byte
+		var stream []byte
+		for k := 0; k < n; k++ {
+			var v ref.Value
+			switch r.Intn(6) {
+			case 0:
+				v = ref.Value{T: ref.STRING, S: gen.Bytes(r, []int{17000, 20000, 33000, 70000}[r.Intn(4)])}
+			case 1:
+				v = ref.Value{T: ref.STRING, S: gen.Bytes(r, 1000+r.Intn(6000))}
+			default:
+				v = gen.Tree(r, ref.KnownTypes[r.Intn(len(ref.KnownTypes))], gen.TreeOpts{MaxDepth: 3, MaxElems: 5, NoBigCounts: true}, 0)
+			}
+			e := v.Encode(nil)
+			vals, encs, stream = append(vals, v), append(encs, e), append(stream, e...)
+		}
+		sched := []int{doubles.SchedRandom, doubles.SchedBuf, doubles.SchedHuge, doubles.SchedSmall}[r.Intn(4)]
+		if len(stream) > 60000 && sched == doubles.SchedSmall {
+			sched = doubles.SchedRandom
+		}
+		kind := r.Intn(2)
+		src := &doubles.Source{Data: stream, Len: len(stream), ErrAt: len(stream), Err: io.EOF, Sched: sched, R: r, WithData: r.Intn(2) == 0, Budget: 10*len(stream) + 100000}
+		dr := bufiox.NewDefaultReader(src)
+		cs.Desc = M{"values": n, "stream_len": len(stream), "schedule": doubles.SchedNames[sched], "skipper": []string{"SkipDecoder/DefaultReader", "BufferReader.Skip/DefaultReader"}[kind]}
+		d := thrift.NewSkipDecoder(dr)
+		br := thrift.NewBufferReader(dr)
+		defer d.Release()
+		defer br.Recycle()
+		pos, releases := 0, 0
+		for k, e := range encs {
+			before := dr.ReadLen()
+			if kind == 0 {
+				out, err := d.Next(thrift.TType(vals[k].T))
+				if err != nil {
+					cs.Fail("skip-rejected-wellformed", M{"skipper": "SkipDecoder/DefaultReader", "history": "values and releases"}, M{"value_index": k, "releases_so_far": releases, "err": errString(err), "stream_offset": pos})
+					return
+				}
+				if !bytes.Equal(out, e) {
+					cs.Fail("skip-wrong-bytes", M{"skipper": "SkipDecoder/DefaultReader", "history": "values and releases"}, M{"value_index": k, "releases_so_far": releases, "stream_offset": pos, "message": fmt.Sprintf("returned %d bytes, want %d (equal prefix %d)", len(out), len(e), firstDiff(out, e))})
+					return
+				}
+			} else if err := br.Skip(thrift.TType(vals[k].T)); err != nil {
+				cs.Fail("skip-rejected-wellformed", M{"skipper": "BufferReader.Skip/DefaultReader", "history": "values and releases"}, M{"value_index": k, "releases_so_far": releases, "err": errString(err), "stream_offset": pos})
+				return
+			}
+			if got := dr.ReadLen() - before; got != len(e) {
+				cs.Fail("skip-readlen", M{"skipper": cs.Desc["skipper"], "history": "values and releases"}, M{"value_index": k, "releases_so_far": releases, "message": fmt.Sprintf("consumed %d bytes for a value of %d", got, len(e))})
+				return
+			}
+			pos += len(e)
+			if r.Intn(2) == 0 {
+				dr.Release(nil)
+				releases++
+			}
+		}
+		// what follows the last value is the end of the stream, nothing else
+		if _, err := dr.Peek(1); err == nil {
+			cs.Fail("skip-trailing-bytes", M{"skipper": cs.Desc["skipper"], "history": "values and releases"}, M{"message": "bytes are left on the reader after the last value was consumed"})
+			return
+		}
+		dr.Release(nil)
+		cs.Count(releases > 0, "vr", hexOf(stream[:minInt(len(stream), 64)]), n, sched, kind)
+		cs.C.Obs("values skipped on one reader across Releases", int64(n))
+	})
+
+	// (6) a source that had nothing more to give (io.EOF at a value boundary) and later holds a further value:
+	// the decoder over a plain io.Reader consumes that value like any other
+	c.Stage("source-refilled-after-eof", c.Pick(1500, 30000), false, func(cs *drv.Case) {
+		r := cs.R
+		var buf bytes.Buffer
+		d := thrift.NewReaderSkipDecoder(&buf)
+		defer d.Release()
+		rounds := 2 + r.Intn(4)
+		for k := 0; k < rounds; k++ {
+			if r.Intn(2) == 0 {
+				// polled while drained: an error, nothing consumed
+				if out, err := d.Next(thrift.STRUCT); err == nil {
+					cs.Fail("skip-accepted-malformed", M{"skipper": "ReaderSkipDecoder", "history": "drained source"}, M{"round": k, "message": fmt.Sprintf("Next on a drained source returned %d bytes", len(out))})
+					return
+				}
+			}
+			t := ref.KnownTypes[r.Intn(len(ref.KnownTypes))]
+			v := gen.Tree(r, t, gen.TreeOpts{MaxDepth: 2, MaxElems: 4, NoBigCounts: true}, 0)
+			e := v.Encode(nil)
+			buf.Write(e)
+			trail := r.Intn(3)
+			buf.Write(make([]byte, trail))
+			out, err := d.Next(thrift.TType(t))
+			if err != nil || !bytes.Equal(out, e) {
+				cs.Fail("skip-rejected-wellformed", M{"skipper": "ReaderSkipDecoder", "history": "source refilled after io.EOF"}, M{"round": k, "err": errString(err), "value_hex": hexOf(e), "message": "a complete value written to the source after it had reported io.EOF was not delivered"})
+				return
+			}
+			if buf.Len() != trail {
+				cs.Fail("skip-source-position", M{"skipper": "ReaderSkipDecoder", "history": "source refilled after io.EOF"}, M{"round": k, "message": fmt.Sprintf("%d bytes left in the source, want the %d that follow the value", buf.Len(), trail)})
+				return
+			}
+			buf.Next(trail)
+		}
+		cs.Count(true, "refill", rounds, cs.Idx)
+		cs.C.Obs("values delivered after the source had reported io.EOF", int64(rounds))
+	})
 }
 
 // polluteCodecPools plays "the previous user of the pooled objects": it makes every pooled
